@@ -23,51 +23,84 @@ theorem toBool_iff (st : Status) : st.toBool = true ↔ (st = .approximateSoluti
 
 /-! ### nextStart -/
 
+theorem nextStartAux_some (bounds valid : S → Bool) (starts : Array S) (fuel : Nat) (pis pis' : Pis) (i : Nat) (s : S)
+    (h : nextStartAux bounds valid starts fuel pis = (some (i, s), pis')) :
+    ∃ hi : i < starts.size, starts[i] = s ∧ bounds s = true ∧ valid s = true ∧
+      pis.addedStartStates ≤ i ∧ pis'.addedStartStates = i + 1 ∧
+      pis'.sampledGoalsCount = pis.sampledGoalsCount ∧
+      ∀ j (hj : j < starts.size), pis.addedStartStates ≤ j → j < i → inputOk bounds valid starts[j] = false := by
+  induction fuel generalizing pis with
+  | zero => simp [nextStartAux] at h
+  | succ f ih =>
+    simp only [nextStartAux] at h
+    split at h
+    · next hlt =>
+      split at h
+      · next hok =>
+        simp only [Prod.mk.injEq, Option.some.injEq] at h
+        obtain ⟨⟨rfl, rfl⟩, rfl⟩ := h
+        refine ⟨hlt, rfl, ?_, ?_, Nat.le_refl _, rfl, rfl, ?_⟩
+        · unfold inputOk at hok; split at hok <;> simp_all
+        · unfold inputOk at hok; split at hok <;> simp_all
+        · intro j hj h1 h2; omega
+      · next hok =>
+        obtain ⟨hi, h1, h2, h3, h4, h5, h6, h7⟩ := ih _ h
+        simp only at h4 h6 h7
+        refine ⟨hi, h1, h2, h3, by omega, h5, h6, ?_⟩
+        intro j hj hj1 hj2
+        by_cases hje : j = pis.addedStartStates
+        · subst hje; simpa using hok
+        · exact h7 j hj (by omega) hj2
+    · simp at h
+
+theorem nextStartAux_none (bounds valid : S → Bool) (starts : Array S) (fuel : Nat) (pis pis' : Pis)
+    (hf : starts.size - pis.addedStartStates ≤ fuel)
+    (h : nextStartAux bounds valid starts fuel pis = (none, pis')) :
+    starts.size ≤ pis'.addedStartStates ∧ pis.addedStartStates ≤ pis'.addedStartStates ∧
+      (pis.addedStartStates ≤ starts.size → pis'.addedStartStates = starts.size) ∧
+      pis'.sampledGoalsCount = pis.sampledGoalsCount ∧
+      ∀ j (hj : j < starts.size), pis.addedStartStates ≤ j → inputOk bounds valid starts[j] = false := by
+  induction fuel generalizing pis with
+  | zero =>
+    simp only [nextStartAux, Prod.mk.injEq, true_and] at h
+    subst h
+    refine ⟨by omega, Nat.le_refl _, fun _ => by omega, rfl, ?_⟩
+    intro j hj hj1; omega
+  | succ f ih =>
+    simp only [nextStartAux] at h
+    split at h
+    · next hlt =>
+      split at h
+      · simp at h
+      · next hok =>
+        obtain ⟨h1, h2, h3, h4, h5⟩ := ih _ (by simp only; omega) h
+        simp only at h2 h3 h4 h5
+        refine ⟨h1, by omega, fun _ => h3 (by omega), h4, ?_⟩
+        intro j hj hj1
+        by_cases hje : j = pis.addedStartStates
+        · subst hje; simpa using hok
+        · exact h5 j hj (by omega)
+    · next hge =>
+      simp only [Prod.mk.injEq, true_and] at h
+      subst h
+      refine ⟨by omega, Nat.le_refl _, fun _ => by omega, rfl, ?_⟩
+      intro j hj hj1; omega
+
 theorem nextStart_some (bounds valid : S → Bool) (starts : Array S) (pis pis' : Pis) (i : Nat) (s : S)
     (h : nextStart bounds valid starts pis = (some (i, s), pis')) :
     ∃ hi : i < starts.size, starts[i] = s ∧ bounds s = true ∧ valid s = true ∧
       pis.addedStartStates ≤ i ∧ pis'.addedStartStates = i + 1 ∧
       pis'.sampledGoalsCount = pis.sampledGoalsCount ∧
-      ∀ j (hj : j < starts.size), pis.addedStartStates ≤ j → j < i → inputOk bounds valid starts[j] = false := by
-  fun_induction nextStart bounds valid starts pis with
-  | case1 pis hlt st pis1 hok =>
-    simp only [Prod.mk.injEq, Option.some.injEq] at h
-    obtain ⟨⟨rfl, rfl⟩, rfl⟩ := h
-    refine ⟨hlt, rfl, ?_, ?_, Nat.le_refl _, rfl, rfl, ?_⟩
-    · unfold inputOk at hok; split at hok <;> simp_all [st]
-    · unfold inputOk at hok; split at hok <;> simp_all [st]
-    · intro j hj h1 h2; omega
-  | case2 pis hlt st pis1 hok ih =>
-    obtain ⟨hi, h1, h2, h3, h4, h5, h6, h7⟩ := ih h
-    simp only [pis1] at h4 h6 h7
-    refine ⟨hi, h1, h2, h3, by omega, h5, h6, ?_⟩
-    intro j hj hj1 hj2
-    by_cases hje : j = pis.addedStartStates
-    · subst hje; simpa [st] using hok
-    · exact h7 j hj (by omega) hj2
-  | case3 pis hge => simp at h
+      ∀ j (hj : j < starts.size), pis.addedStartStates ≤ j → j < i → inputOk bounds valid starts[j] = false :=
+  nextStartAux_some bounds valid starts _ pis pis' i s h
 
 theorem nextStart_none (bounds valid : S → Bool) (starts : Array S) (pis pis' : Pis)
     (h : nextStart bounds valid starts pis = (none, pis')) :
     starts.size ≤ pis'.addedStartStates ∧ pis.addedStartStates ≤ pis'.addedStartStates ∧
       (pis.addedStartStates ≤ starts.size → pis'.addedStartStates = starts.size) ∧
       pis'.sampledGoalsCount = pis.sampledGoalsCount ∧
-      ∀ j (hj : j < starts.size), pis.addedStartStates ≤ j → inputOk bounds valid starts[j] = false := by
-  fun_induction nextStart bounds valid starts pis with
-  | case1 pis hlt st pis1 hok => simp at h
-  | case2 pis hlt st pis1 hok ih =>
-    obtain ⟨h1, h2, h3, h4, h5⟩ := ih h
-    simp only [pis1] at h2 h3 h4 h5
-    refine ⟨h1, by omega, fun _ => h3 (by omega), h4, ?_⟩
-    intro j hj hj1
-    by_cases hje : j = pis.addedStartStates
-    · subst hje; simpa [st] using hok
-    · exact h5 j hj (by omega)
-  | case3 pis hge =>
-    simp only [Prod.mk.injEq, true_and] at h
-    subst h
-    refine ⟨by omega, Nat.le_refl _, fun _ => by omega, rfl, ?_⟩
-    intro j hj hj1; omega
+      ∀ j (hj : j < starts.size), pis.addedStartStates ≤ j → inputOk bounds valid starts[j] = false :=
+  nextStartAux_none bounds valid starts _ pis pis' (Nat.le_refl _) h
 
 /-- what `while (st = pis_.nextStart())` hands out -/
 theorem drainStarts_spec (bounds valid : S → Bool) (starts : Array S) (fuel : Nat) (pis : Pis) :
@@ -138,21 +171,19 @@ theorem goalInner_spec (bounds valid : S → Bool) (sample : Nat → S) (maxCoun
     simp only [goalInner]
     split
     · next hok =>
-      refine ⟨by simp, by simp; omega, ?_⟩
+      refine ⟨by simp, by simp <;> omega, ?_⟩
       intro x hx
       simp only [Option.some.injEq] at hx
       subst hx
       unfold inputOk at hok
       split at hok <;> simp_all
     · split
-      · next t sc' _ =>
-        split
-        · obtain ⟨h1, h2, h3⟩ := ih (count + 1) sc'
-          refine ⟨by omega, by omega, ?_⟩
-          intro x hx
-          obtain ⟨a, b, c, d, e⟩ := h3 x hx
-          exact ⟨a, b, c, by omega, e⟩
-        · simp
+      · obtain ⟨h1, h2, h3⟩ := ih (count + 1) (ptcEval sc).2
+        refine ⟨by omega, by omega, ?_⟩
+        intro x hx
+        obtain ⟨a, b, c, d, e⟩ := h3 x hx
+        exact ⟨a, b, c, by omega, e⟩
+      · simp <;> omega
 
 theorem goalOuter_spec (bounds valid : S → Bool) (sample : Nat → S) (maxCount fuel count : Nat) (sc : List Bool) :
     let r := goalOuter bounds valid sample maxCount fuel count sc
@@ -190,19 +221,15 @@ theorem goalOuter_spec (bounds valid : S → Bool) (sample : Nat → S) (maxCoun
           omega
       split
       · split
-        · next t1 sc1 _ =>
-          split
-          · split
-            · next t2 sc2 _ =>
-              split
-              · obtain ⟨h1, h2, h3⟩ := ih count' sc2
-                refine ⟨by omega, by omega, ?_⟩
-                intro y hy
-                obtain ⟨a, b, c, d, e, g⟩ := h3 y hy
-                exact ⟨a, b, c, by omega, e, g⟩
-              · simp; omega
-          · simp; omega
-      · simp; omega
+        · split
+          · obtain ⟨h1, h2, h3⟩ := ih count' (ptcEval (ptcEval sc').2).2
+            refine ⟨by omega, by omega, ?_⟩
+            intro y hy
+            obtain ⟨a, b, c, d, e, g⟩ := h3 y hy
+            exact ⟨a, b, c, by omega, e, g⟩
+          · simp <;> omega
+        · simp <;> omega
+      · simp <;> omega
 
 theorem nextGoal_valid (bounds valid : S → Bool) (sample : Nat → S) (maxCount : Nat) (ptcScript : List Bool)
     (pis pis' : Pis) (k : Nat) (s : S)
@@ -265,7 +292,7 @@ theorem pathCheck_iff (valid : S → Bool) (cm : S → S → Bool) (p : List S) 
       · next hv => exact ⟨fun _ => by simpa using hv, (checkLoop_iff cm s0 rest).1 h⟩
       · simp at h
     · intro ⟨h1, h2⟩
-      have hv : valid s0 = true := by simpa using h1 (by simp)
+      have hv : valid s0 = true := h1 (by simp)
       rw [if_pos hv]
       exact (checkLoop_iff cm s0 rest).2 h2
 
